@@ -89,6 +89,11 @@ func c13bOracle(r *e4Result) (string, bool, []string) {
 		}
 		return "", afterAnsweredPing, labels
 	}
+	if len(r.Case.Faults) > 0 {
+		// a silence was planned but its connection did not live long enough (e.g. the short connect
+		// timeout of this class expired under load): nothing to judge
+		return "", false, append(labels, "c13:planned-silence-not-reached")
+	}
 	// negative class: all pings answered => no close, no redial, no keep-alive error
 	labels = append(labels, "c13:all-pings-answered")
 	pings := 0
